@@ -20,7 +20,8 @@ RULE = ('case = outcome word over {delivered+acked, uplink lost, ack lost} (ALL 
 ASSUMPTIONS = ['peer model = nRF51 ESB safelink rules (see vf/radiosim.py)', 'each transmission costs 1 ms of virtual time',
                'null packet = header 0xFF/0xF3 with empty payload; the 3-byte ff 05 01 negotiation frame is not data']
 REQUIRED = ['mon.words_exhaustive', 'mon.random_words', 'mon.uplink_packets', 'mon.downlink_packets', 'mon.downlink_header_only_packets', 'mon.link_errors_expected',
-            'mon.negotiation_loss_cases', 'mon.no_safelink_cases', 'mon.full_stack_cases', 'mon.multi_submitter_cases']
+            'mon.negotiation_loss_cases', 'mon.no_safelink_cases', 'mon.full_stack_cases', 'mon.multi_submitter_cases',
+            'mon.second_start_up_of_the_same_driver_object']
 EXHAUSTIVE = {'quick': False, 'thorough': False}
 EXHAUSTIVE_NOTE = 'outcome words up to the stated length are enumerated completely; submission schedules are sampled per word'
 DESC_TIMEOUT = 1500
@@ -59,7 +60,7 @@ def mkpk(uid, rnd, header_only_ok=False):
 
 
 def one(ctx, word, n_up, n_down, sub_pos, down_pos, N, safelink=True, nsub=1, sseed=0, policy='random', label='w',
-        garbage=False, settle=40):
+        garbage=False, settle=40, prior=False):
     """Run the radio thread over one outcome word.  sub_pos[i] / down_pos[i]: transmission count at which uplink
     packet i is submitted / downlink packet i is queued in the Crazyflie."""
     from vf import detsched as ds, radiosim
@@ -79,6 +80,21 @@ def one(ctx, word, n_up, n_down, sub_pos, down_pos, N, safelink=True, nsub=1, ss
         drv.in_queue = rd.queue.Queue()
         drv.out_queue = rd.queue.Queue(1)
         drv.link_error_callback = lambda msg: ob['errors'].append((radio.n, 'send:' + msg[:30]))
+        if prior:
+            # an earlier start-up of the SAME driver object (pause()/restart(), close()/connect()) in which the peer
+            # confirmed safelink; the judged start-up below is a new negotiation and must stand on its own
+            peer0 = radiosim.Peer(supports_safelink=True)
+            radio0 = radiosim.ScriptedRadio(peer0, [])
+            th0 = rd._RadioDriverThread(radio0, drv.in_queue, drv.out_queue, None, lambda msg: None, drv, None)
+            th0.start()
+            g0 = 0
+            while radio0.n < 12 and g0 < 100000:
+                s.sleep(0.001)
+                g0 += 1
+            th0.stop()
+            ob['prior_safelink'] = th0._has_safelink
+            while drv.receive_packet(0) is not None:
+                pass
         th = rd._RadioDriverThread(radio, drv.in_queue, drv.out_queue, None,
                                    lambda msg: ob['errors'].append((radio.n, msg[:40])), drv, None)
         # downlink packets appear in the Crazyflie's queue at scripted transmission counts
@@ -136,7 +152,11 @@ def one(ctx, word, n_up, n_down, sub_pos, down_pos, N, safelink=True, nsub=1, ss
             'submit_at': sub_pos, 'queue_at': down_pos, 'N': N, 'safelink_peer': safelink, 'submitters': nsub, 'case': label}
     rp = {'part': 'single', 'word': [x if isinstance(x, int) else SYM.index(x) for x in word], 'n_up': n_up, 'n_down': n_down,
           'sub_pos': sub_pos, 'down_pos': down_pos, 'N': N, 'safelink': safelink, 'nsub': nsub, 'sseed': sseed, 'policy': policy,
-          'garbage': garbage, 'seed': 0}
+          'garbage': garbage, 'seed': 0, 'prior': prior}
+    if prior:
+        ctx.count('mon.second_start_up_of_the_same_driver_object')
+        if not ob.get('prior_safelink'):
+            ctx.inconclusive_('harness: the earlier start-up did not negotiate safelink')
 
     def V(mech, detail):
         ctx.violate(mech, dict(info, **detail), replay=rp)
@@ -233,7 +253,7 @@ def run(desc, ctx):
     part = desc['part']
     if part == 'single':
         one(ctx, desc['word'], desc['n_up'], desc['n_down'], desc['sub_pos'], desc['down_pos'], desc['N'], desc['safelink'],
-            desc['nsub'], desc['sseed'], desc['policy'], 'replay', desc.get('garbage', False))
+            desc['nsub'], desc['sseed'], desc['policy'], 'replay', desc.get('garbage', False), prior=desc.get('prior', False))
         return
     rnd = random.Random(desc['seed'] * 31 + hash(part) % 1000)
     first = None
@@ -290,6 +310,8 @@ def run(desc, ctx):
             r = one(ctx, w, 2, 2, [12, 14], [12, 13], 5, safelink=sl, nsub=1, sseed=variant, policy='random', label='negotiation',
                     garbage=(variant == 4))
             ctx.count('mon.negotiation_loss_cases')
+            one(ctx, w, 2, 2, [12, 14], [12, 13], 5, safelink=sl, nsub=1, sseed=variant + 100, policy='random',
+                label='negotiation-after-an-earlier-start-up', garbage=(variant == 4), prior=True)
             if r:
                 ctx.nontrivial(('nego', j, variant, r[1]))
         first = {'negotiation_exchanges_lost': j}
